@@ -44,14 +44,20 @@ def render_file(lang: str, shapes: list[dict], salt: int):
             body, hdr, layout, s, _ = R.rust(sh, name, split=(i % 2 == 1))
         else:
             body, hdr, layout, s = getattr(R, lang)(sh, name)
-        # every third Python/TS class is nested inside a plain function (nested scope)
-        if lang == "python" and i % 3 == 2:
-            lines.append(f"def make_{salt}_{i}():")
-            body = ["    " + l if l else l for l in body] + [f"    return {name}"]
-            hdr += 0
-        classes.append(dict(s, **layout, line=len(lines) + hdr + (1 if not (lang == "python" and i % 3 == 2) else 1), name=name))
-        if lang == "python" and i % 3 == 2:
-            classes[-1]["line"] = len(lines) + 1   # header is the first line of the indented body
+        # Python classes cycle through the places a class statement can stand: module level, inside a function,
+        # in an except handler (optional-dependency fallback), in a match case, in an else branch, in a with body
+        place = ("top", "top", "func", "except", "top", "case", "else", "func", "with")[i % 9] if lang == "python" else "top"
+        if place != "top":
+            pre, ind, post = {
+                "func": ([f"def make_{salt}_{i}():"], 4, [f"    return {name}"]),
+                "except": (["try:", f"    from fastimpl_{salt}_{i} import {name}", "except ImportError:"], 4, []),
+                "case": ([f"match MODE_{salt}_{i}:", '    case "plain":', "        pass", "    case _:"], 8, []),
+                "else": ([f"if FAST_{salt}_{i}:", "    pass", "else:"], 4, []),
+                "with": ([f"with scope_{salt}_{i}():"], 4, []),
+            }[place]
+            lines += pre
+            body = [" " * ind + l if l else l for l in body] + post
+        classes.append(dict(s, **layout, line=len(lines) + hdr + 1, name=name))
         lines += body + ["", ""]
     return "\n".join(lines) + "\n", classes
 
